@@ -428,7 +428,9 @@ def c19_sig(o):
         f, k = c["flags"], c["caps"]
         return (f"config:{c['router']}:{c['issuer']}:{c['endpoints']}:" + "".join(x[0] if f[x] else "-" for x in ("s256", "post", "pkjwt", "refresh", "reqobj"))
                 + ":" + "".join(x if k[x] else "-" for x in ("cc", "te", "dev")))
-    return f"{c['kind']}:{c.get('form', c.get('doc'))}:{c.get('insecure', '')}"
+    if c["kind"] == "issuer":
+        return f"issuer:{c['scheme']}:{c['host']}:{c['deco']}:insecure={c['insecure']}:{c['via']}"
+    return f"{c['kind']}:{c.get('doc')}"
 
 
 def c19_need(o):
@@ -511,11 +513,12 @@ CHECKS = {
     "C20": c20_check,
     "C19": simple_table_check(
         [dict(module="Discovery", sub="tbl-discovery", prefixes=("C19.",), sig=c19_sig, need=c19_need, label="discovery table",
-              required=["config:P:host:default", "config:L:host:custom", "config:P:path:custom", "config:L:path:default", "config:P:dynamicHost:default", "config:L:dynamicHost:custom",
+              required=["config:P:host:default", "config:L:host:custom", "config:P:path:custom", "config:L:path:default", "config:P:dynamicHost:default", "config:L:dynamicHost:custom", "config:L:host:legacyOwn", "config:L:path:legacyNoDevice",
                         "token:same", "reqobj:True", "reqobj:False", "s256:True", "issuer:True", "issuer:False", "discover:True", "discover:False"])],
         ["every configuration is built for real (op.NewProvider with the options / storage capabilities of the case, both routers, the Server router served with the provider's own endpoints)",
          "'served' = the route does not answer 404 / 405 to the endpoint's method; 'accepted grant' = the token endpoint's answer is not unsupported_grant_type (probed with the credentials of a client registered for that grant)",
-         "issuer shapes: host only, with a path component (handler mounted under that path), derived from the request host; endpoint tables: defaults, every endpoint moved to a custom relative path; "
+         "issuer shapes: host only, with a path component (handler mounted under that path), derived from the request host; endpoint tables: defaults, every endpoint moved to a custom relative path, "
+         "a legacy server constructed with its own table (different from the wrapped provider's; with and without a device authorization endpoint); "
          "absolute custom endpoint URLs are outside the statement (they are not issuer-relative by intention)",
          "quick: the two base option sets (all on / all off) and their single-option deviations x all capability sets; thorough: all 32 option sets"],
         world=True),
